@@ -858,3 +858,736 @@ def bounded_mfl_replay(rp):
         if fid == case['fid'] and clause == case['clause']:
             return (False, detail)
     return (True, 'ok')
+
+
+# ======================================================================================
+# (2) Enumeration: partitions, subsets, all_combinations, stepwise rules, iivsearch candidates
+# ======================================================================================
+
+SET_PART = 'src/pharmpy/internals/set/partitions.py:partitions'
+SET_SUB = 'src/pharmpy/internals/set/subsets.py:'
+MFL_HELP = 'src/pharmpy/tools/mfl/helpers.py:all_combinations'
+MS_ALG = 'src/pharmpy/tools/modelsearch/algorithms.py:'
+IIV_ALG = 'src/pharmpy/tools/iivsearch/algorithms.py:'
+
+
+def _bell(n):
+    """Bell number by the Bell triangle"""
+    row = [1]
+    for _ in range(n):
+        new = [row[-1]]
+        for x in row:
+            new.append(new[-1] + x)
+        row = new
+    return row[0]
+
+
+def _ref_partitions(elements):
+    """all set partitions (frozenset of frozensets) by restricted growth strings"""
+    elements = list(elements)
+    n = len(elements)
+    out = []
+
+    def rec(i, assign, nblocks):
+        if i == n:
+            blocks = defaultdict(set)
+            for e, b in zip(elements, assign):
+                blocks[b].add(e)
+            out.append(frozenset(frozenset(v) for v in blocks.values()))
+            return
+        for b in range(nblocks + 1):
+            rec(i + 1, assign + [b], max(nblocks, b + 1))
+
+    rec(0, [], 0)
+    return out
+
+
+def _ref_subsets_by_mask(elements):
+    """all subsets as tuples in input order, by bit masks"""
+    elements = list(elements)
+    n = len(elements)
+    return [tuple(elements[i] for i in range(n) if mask >> i & 1) for mask in range(1 << n)]
+
+
+C_PART = 'partitions(elements) yields every set partition of the elements exactly once (count = Bell(n))'
+C_PART_CANON = 'each partition is a shortlex-sorted tuple of tuples and the partitions are ordered by length, part lengths, then lexicographically'
+C_SUBSETS = 'subsets(s, min_size, max_size) yields exactly the subsets with min_size <= size <= max_size (negative max_size relative to len(s)), each once, by size then in input order'
+C_NE_SUBSETS = 'non_empty_subsets(s) is the powerset without the empty set, each subset once'
+C_NEP_SUBSETS = 'non_empty_proper_subsets(s) is the powerset without the empty set and s itself, each subset once'
+
+
+def _check_partitions(elements):
+    from pharmpy.internals.set.partitions import partitions
+
+    elements = tuple(elements)
+    out = []
+    try:
+        got = list(partitions(iter(elements)))
+    except Exception as e:
+        return [(SET_PART, C_PART, f'partitions({elements}) raised {_exc(e)}')]
+    n = len(elements)
+    bad = None
+    for p in got:
+        flat = [e for part in p for e in part]
+        if not isinstance(p, tuple) or not all(isinstance(part, tuple) and part for part in p):
+            bad = f'{p!r} is not a tuple of non-empty tuples'
+        elif sorted(flat, key=repr) != sorted(elements, key=repr):
+            bad = f'{p!r} is not a partition of {elements}'
+    as_sets = [frozenset(frozenset(part) for part in p) for p in got]
+    ref = _ref_partitions(elements)
+    if bad is None and len(set(as_sets)) != len(as_sets):
+        bad = 'a partition is yielded twice'
+    if bad is None and len(got) != _bell(n):
+        bad = f'{len(got)} partitions, Bell({n}) = {_bell(n)}'
+    if bad is None and set(as_sets) != set(ref):
+        bad = f'missing {sorted(map(sorted, map(lambda q: map(sorted, q), set(ref) - set(as_sets))))[:1]}'
+    if bad:
+        out.append((SET_PART, C_PART, f'partitions({elements}): {bad}'))
+    else:
+        canon = all(list(p) == sorted(p, key=lambda part: (len(part), part)) for p in got)
+        order = got == sorted(got, key=lambda p: (len(p), tuple(len(x) for x in p), p))
+        if not (canon and order):
+            out.append((SET_PART, C_PART_CANON, f'partitions({elements}) = {got!r}'[:300]))
+    return out
+
+
+def _check_subsets(n):
+    from collections import Counter
+
+    from pharmpy.internals.set import subsets as S
+
+    s = list(range(10, 10 + n))
+    out = []
+    masks = _ref_subsets_by_mask(s)
+    for mn in range(0, n + 2):
+        for mx in range(-(n + 2), n + 2):
+            eff = n + mx + 1 if mx < 0 else mx
+            want = sorted((t for t in masks if mn <= len(t) <= eff), key=lambda t: (len(t), t))
+            try:
+                got = list(S.subsets(iter(s), min_size=mn, max_size=mx))
+            except Exception as e:
+                out.append((SET_SUB + 'subsets', C_SUBSETS,
+                            f'subsets({s}, {mn}, {mx}) raised {_exc(e)}'))
+                continue
+            if got != want:
+                out.append((SET_SUB + 'subsets', C_SUBSETS,
+                            f'subsets({s}, min_size={mn}, max_size={mx}) = {got[:8]}.. expected '
+                            f'{want[:8]}.. ({len(got)} vs {len(want)})'))
+    for fn, clause, keep in ((S.non_empty_subsets, C_NE_SUBSETS, lambda t: 0 < len(t)),
+                             (S.non_empty_proper_subsets, C_NEP_SUBSETS, lambda t: 0 < len(t) < n)):
+        want = Counter(t for t in masks if keep(t))
+        try:
+            got = list(fn(iter(s)))
+        except Exception as e:
+            out.append((SET_SUB + fn.__name__, clause, f'{fn.__name__}({s}) raised {_exc(e)}'))
+            continue
+        if Counter(got) != want or not all(isinstance(t, tuple) for t in got):
+            out.append((SET_SUB + fn.__name__, clause,
+                        f'{fn.__name__}({s}) yields {len(got)} subsets ({got[:6]}..), expected '
+                        f'{sum(want.values())}'))
+    return out
+
+
+# ---- feature dictionaries ----
+
+UNIVERSE_SPACE = ('ABSORPTION([FO,ZO,SEQ-ZO-FO,INST]);ELIMINATION([FO,MM]);PERIPHERALS(0..3);'
+                  'TRANSITS([0,1,3],*);LAGTIME([OFF,ON])')
+EXAMPLE_SPACE = ('ABSORPTION([FO,ZO,SEQ-ZO-FO]);ELIMINATION([FO,MM]);PERIPHERALS(0..2);'
+                 'TRANSITS([0,1,3]);LAGTIME([OFF,ON])')
+# further spaces; the funcs of a named space keep the defaults that ModelFeatures fills in
+NAMED_SPACES = [
+    'ABSORPTION([FO,ZO]);ELIMINATION(MM);PERIPHERALS(1..2);LAGTIME(ON)',
+    'ABSORPTION(ZO);PERIPHERALS([2,1])',
+    'ELIMINATION(MM);PERIPHERALS([1,5,3])',
+    'ABSORPTION([INST,FO]);TRANSITS([0,1],*);PERIPHERALS([1,3]);LAGTIME(ON)',
+    'ABSORPTION([FO,ZO,SEQ-ZO-FO]);TRANSITS([1,3]);LAGTIME(ON)',
+]
+DEFAULT_KEYS = {('ABSORPTION', 'INST'), ('ELIMINATION', 'FO'), ('TRANSITS', 0, 'DEPOT'),
+                ('PERIPHERALS', 0), ('LAGTIME', 'OFF')}
+
+_FUNCS = {}
+
+
+def _space_funcs(space, drop_defaults=False):
+    """feature dict of a search space, built by pharmpy.tools.mfl (parse + convert_to_funcs)"""
+    k = (space, drop_defaults)
+    if k not in _FUNCS:
+        f = _mfl()['parse'](space, mfl_class=True).convert_to_funcs()
+        if drop_defaults:
+            # as modelsearch does after filtering the features of the base model
+            f = {key: v for key, v in f.items() if key not in DEFAULT_KEYS}
+        _FUNCS[k] = f
+    return _FUNCS[k]
+
+
+def _sub_dict(case):
+    """the feature dict of an enumeration case {'space':..., 'drop_defaults':..., 'keys': [...]|None}"""
+    f = _space_funcs(case['space'], case.get('drop_defaults', False))
+    if case.get('keys') is None:
+        return dict(f)
+    keys = [tuple(k) for k in case['keys']]
+    return {k: f[k] for k in f if k in keys}
+
+
+def _cat(key):
+    return key[0]
+
+
+# ---- reference: documented stepwise rules (docs/modelsearch.rst) ----
+
+DOC_EXCLUDED = [  # table "Feature combination exclusions"
+    (('ABSORPTION', 'ZO'), ('TRANSITS',)),
+    (('ABSORPTION', 'SEQ-ZO-FO'), ('TRANSITS',)),
+    (('ABSORPTION', 'SEQ-ZO-FO'), ('LAGTIME', 'ON')),
+    (('ABSORPTION', 'INST'), ('LAGTIME', 'ON')),
+    (('ABSORPTION', 'INST'), ('TRANSITS',)),
+    (('LAGTIME', 'ON'), ('TRANSITS',)),
+]
+
+
+def _matches(key, pattern):
+    return tuple(key[:len(pattern)]) == pattern
+
+
+def _ref_allowed(feat, previous, keys):
+    """may `feat` be the next step of a path on which `previous` were applied (documented rules):
+    a feature at most once, one feature per category, no excluded combination, peripheral
+    compartments one at a time in increasing order starting with the smallest of the space"""
+    if feat in previous:
+        return False
+    if _cat(feat) == 'PERIPHERALS':
+        counts = sorted(k[1] for k in keys if _cat(k) == 'PERIPHERALS' and len(k) == len(feat))
+        done = [p[1] for p in previous if _cat(p) == 'PERIPHERALS' and len(p) == len(feat)]
+        if not done:
+            return feat[1] == counts[0]
+        larger = [c for c in counts if c > max(done)]
+        return bool(larger) and feat[1] == larger[0]
+    if any(_cat(p) == _cat(feat) for p in previous):
+        return False
+    for x, y in DOC_EXCLUDED:
+        for p in previous:
+            if (_matches(feat, x) and _matches(p, y)) or (_matches(feat, y) and _matches(p, x)):
+                return False
+    return True
+
+
+def _ref_paths(keys):
+    """all paths (tuples of features) the documented rules allow"""
+    keys = list(keys)
+    out = []
+
+    def rec(path):
+        for f in keys:
+            if _ref_allowed(f, path, keys):
+                out.append(tuple(path) + (f,))
+                rec(list(path) + [f])
+
+    rec([])
+    return out
+
+
+def _ref_reduced(keys):
+    """candidates (features applied before, new feature) of the reduced stepwise search: after each
+    layer the models with the same features are merged into one"""
+    keys = list(keys)
+    out = []
+    layer = {frozenset()}
+    while layer:
+        nxt = set()
+        for s in sorted(layer, key=lambda x: sorted(map(repr, x))):
+            for f in keys:
+                if _ref_allowed(f, list(s), keys):
+                    out.append((s, f))
+                    nxt.add(s | {f})
+        layer = nxt
+    return out
+
+
+def _has_nodepot(keys):
+    return any(_cat(k) == 'TRANSITS' and k[2] == 'NODEPOT' for k in keys)
+
+
+def _unsorted_counts(keys):
+    counts = [k[1] for k in keys if _cat(k) == 'PERIPHERALS' and len(k) == 2]
+    return counts != sorted(counts)
+
+
+def _dom(keys):
+    """the clauses are stated per kind of feature dictionary, so that a deviation that only concerns
+    NODEPOT transits or peripheral counts listed out of order does not hide others"""
+    d = 'spaces with NODEPOT transits' if _has_nodepot(keys) else 'spaces without NODEPOT transits'
+    if _unsorted_counts(keys):
+        d += ', peripheral counts listed out of order'
+    return d
+
+
+def C_ALLOWED_SOUND(keys):
+    return f'_is_allowed accepts only steps the documented rules allow ({_dom(keys)})'
+
+
+def C_ALLOWED_COMPLETE(keys):
+    return f'_is_allowed accepts every step the documented rules allow ({_dom(keys)})'
+
+
+def _check_is_allowed(case):
+    from pharmpy.tools.modelsearch.algorithms import _is_allowed
+
+    funcs = _sub_dict(case)
+    keys = list(funcs)
+    feat = tuple(case['feat'])
+    prev = [tuple(p) for p in case['previous']]
+    want = _ref_allowed(feat, prev, keys)
+    fid = MS_ALG + '_is_allowed'
+    try:
+        got = _is_allowed(feat, funcs[feat], list(prev), funcs)
+    except Exception as e:
+        return [(fid, C_ALLOWED_SOUND(keys), f'_is_allowed({feat}, previous={prev}) over {keys} raised '
+                                             f'{_exc(e)}')]
+    if bool(got) and not want:
+        return [(fid, C_ALLOWED_SOUND(keys),
+                 f'_is_allowed({feat}, previous={prev}) over {keys} is {got!r}; not allowed by the rules')]
+    if want and not got:
+        return [(fid, C_ALLOWED_COMPLETE(keys),
+                 f'_is_allowed({feat}, previous={prev}) over {keys} is {got!r}; allowed by the rules')]
+    return []
+
+
+# ---- all_combinations and the three builders ----
+
+C_COMB = 'all_combinations(funcs) is the cartesian product over the categories (each category unchanged or one of its features) without the empty combination, each once'
+C_EXH = 'exhaustive builds one candidate per combination of all_combinations, each once, with the functions of its features'
+C_NAMES = 'candidate model names are unique'
+C_GRAPH = 'every candidate is followed by exactly one fit task and stepwise candidates hang below the fit of their parent'
+
+
+def C_STEP_SOUND(keys):
+    return f'exhaustive_stepwise generates only paths the documented rules allow ({_dom(keys)})'
+
+
+C_STEP_ONCE = 'exhaustive_stepwise generates no path twice'
+C_RED_ONCE = 'reduced_stepwise generates one candidate per (merged feature set, new feature)'
+
+
+def C_STEP_COMPLETE(keys):
+    return f'exhaustive_stepwise generates every path the documented rules allow ({_dom(keys)})'
+
+
+def C_RED_SOUND(keys):
+    return f'reduced_stepwise generates only steps the documented rules allow ({_dom(keys)})'
+
+
+def C_RED_COMPLETE(keys):
+    return ('reduced_stepwise generates every step the documented rules allow from every merged feature '
+            f'set ({_dom(keys)})')
+
+
+def _ref_combinations(keys):
+    groups = defaultdict(list)
+    for k in keys:
+        groups[_cat(k)].append(k)
+    out = []
+    for choice in itertools.product(*[[None] + g for g in groups.values()]):
+        c = frozenset(x for x in choice if x is not None)
+        if c:
+            out.append(c)
+    return out
+
+
+def _ancestors(wf, task):
+    seen = []
+    stack = list(wf.get_predecessors(task))
+    ids = set()
+    while stack:
+        t = stack.pop()
+        if id(t) in ids:
+            continue
+        ids.add(id(t))
+        seen.append(t)
+        stack.extend(wf.get_predecessors(t))
+    return seen
+
+
+def _check_builders(case):
+    from collections import Counter
+
+    from pharmpy.tools.mfl.helpers import all_combinations
+    from pharmpy.tools.modelsearch import algorithms as A
+
+    funcs = _sub_dict(case)
+    keys = list(funcs)
+    out = []
+    where = f'features {keys}'
+    ref = _ref_combinations(keys)
+
+    # all_combinations
+    try:
+        combos = list(all_combinations(dict(funcs)))
+        got = Counter(frozenset(c) for c in combos)
+        if got != Counter(ref) or any(len(set(c)) != len(c) or not isinstance(c, tuple) for c in combos):
+            out.append((MFL_HELP, C_COMB, f'{where}: {len(combos)} combinations '
+                                          f'({len(got)} distinct), expected {len(ref)}'))
+    except Exception as e:
+        out.append((MFL_HELP, C_COMB, f'{where}: raised {_exc(e)}'))
+
+    def fits_ok(wf, cands):
+        for t in cands:
+            succ = wf.get_successors(t)
+            fit = [s for s in succ if s.name.startswith('run')]
+            if len(fit) != 1 or len(succ) != 1:
+                return f'candidate {t.task_input[0]} has successors {[s.name for s in succ]}'
+        return None
+
+    # exhaustive
+    fid = MS_ALG + 'exhaustive'
+    try:
+        wf, model_tasks = A.exhaustive(dict(funcs), 'no_add')
+        cands = [t for t in wf.tasks if t.function is A.create_candidate_exhaustive]
+        got = Counter(frozenset(t.task_input[1]) for t in cands)
+        bad = None
+        if got != Counter(ref):
+            bad = f'{len(cands)} candidates ({len(got)} distinct combinations), expected {len(ref)}'
+        elif any(set(t.task_input[2]) != {funcs[f] for f in t.task_input[1]}
+                 or len(t.task_input[2]) != len(t.task_input[1]) for t in cands):
+            bad = 'a candidate does not carry the functions of its features'
+        elif len(model_tasks) != len(cands) or any(wf.get_predecessors(t) for t in cands):
+            bad = f'{len(model_tasks)} fit tasks for {len(cands)} candidates'
+        if bad:
+            out.append((fid, C_EXH, f'{where}: {bad}'))
+        names = [t.task_input[0] for t in cands]
+        if len(set(names)) != len(names):
+            out.append((fid, C_NAMES, f'{where}: names {sorted(n for n in names if names.count(n) > 1)[:3]} '
+                                      f'used more than once'))
+        msg = fits_ok(wf, cands)
+        if msg:
+            out.append((fid, C_GRAPH, f'{where}: {msg}'))
+    except Exception as e:
+        out.append((fid, C_EXH, f'{where}: raised {_exc(e)}'))
+
+    # exhaustive_stepwise
+    fid = MS_ALG + 'exhaustive_stepwise'
+    try:
+        wf, model_tasks = A.exhaustive_stepwise(dict(funcs), 'no_add')
+        cands = [t for t in wf.tasks if t.function is A.create_candidate_stepwise]
+        paths = []
+        graph_bad = fits_ok(wf, cands)
+        for t in cands:
+            path = [t.task_input[1]]
+            cur = t
+            while True:
+                pred = wf.get_predecessors(cur)
+                if not pred:
+                    break
+                if len(pred) != 1:
+                    graph_bad = graph_bad or f'{cur.name} has {len(pred)} predecessors'
+                    break
+                cur = pred[0]
+                if cur.function is A.create_candidate_stepwise:
+                    path.append(cur.task_input[1])
+                    if cur.name != _key_str(cur.task_input[1]):
+                        graph_bad = graph_bad or f'task {cur.name} carries feature {cur.task_input[1]}'
+            if t.task_input[2] is not funcs[t.task_input[1]]:
+                graph_bad = graph_bad or f'candidate {t.task_input[0]} carries the function of another feature'
+            paths.append(tuple(reversed(path)))
+        if graph_bad:
+            out.append((fid, C_GRAPH, f'{where}: {graph_bad}'))
+        if len(model_tasks) != len(cands):
+            out.append((fid, C_GRAPH, f'{where}: {len(model_tasks)} fit tasks for {len(cands)} candidates'))
+        want = _ref_paths(keys)
+        got = Counter(paths)
+        extra = sorted(p for p in got if p not in set(want))
+        twice = sorted(p for p, c in got.items() if c > 1)
+        missing = sorted(p for p in want if p not in got)
+        if extra:
+            out.append((fid, C_STEP_SOUND(keys),
+                        f'{where}: path {" -> ".join(map(_key_str, extra[0]))} generated but not allowed '
+                        f'by the rules'))
+        if twice:
+            out.append((fid, C_STEP_ONCE,
+                        f'{where}: path {" -> ".join(map(_key_str, twice[0]))} generated {got[twice[0]]} '
+                        f'times'))
+        if missing:
+            out.append((fid, C_STEP_COMPLETE(keys),
+                        f'{where}: allowed path {" -> ".join(map(_key_str, missing[0]))} is not generated '
+                        f'({len(missing)} of {len(want)} missing)'))
+        names = [t.task_input[0] for t in cands]
+        if len(set(names)) != len(names):
+            out.append((fid, C_NAMES, f'{where}: names used more than once'))
+    except Exception as e:
+        out.append((fid, C_STEP_SOUND(keys), f'{where}: raised {_exc(e)}'))
+
+    # reduced_stepwise
+    fid = MS_ALG + 'reduced_stepwise'
+    try:
+        wf, model_tasks = A.reduced_stepwise(dict(funcs), 'no_add')
+        cands = [t for t in wf.tasks if t.function is A.create_candidate_stepwise]
+        steps = []
+        for t in cands:
+            before = frozenset(a.task_input[1] for a in _ancestors(wf, t)
+                               if a.function is A.create_candidate_stepwise)
+            steps.append((before, t.task_input[1]))
+        msg = fits_ok(wf, cands)
+        if msg is None and len(model_tasks) != len(cands):
+            msg = f'{len(model_tasks)} fit tasks for {len(cands)} candidates'
+        if msg:
+            out.append((fid, C_GRAPH, f'{where}: {msg}'))
+        want = _ref_reduced(keys)
+        got = Counter(steps)
+        fmt = lambda st: f'{{{", ".join(sorted(map(_key_str, st[0])))}}} + {_key_str(st[1])}'  # noqa: E731
+        extra = sorted((s for s in got if s not in set(want)), key=fmt)
+        twice = sorted((s for s, c in got.items() if c > 1), key=fmt)
+        missing = sorted((s for s in want if s not in got), key=fmt)
+        if extra:
+            out.append((fid, C_RED_SOUND(keys),
+                        f'{where}: step {fmt(extra[0])} generated but not allowed by the rules'))
+        if twice:
+            out.append((fid, C_RED_ONCE,
+                        f'{where}: step {fmt(twice[0])} generated {got[twice[0]]} times'))
+        if missing:
+            out.append((fid, C_RED_COMPLETE(keys),
+                        f'{where}: allowed step {fmt(missing[0])} is not generated'))
+        names = [t.task_input[0] for t in cands]
+        if len(set(names)) != len(names):
+            out.append((fid, C_NAMES, f'{where}: names used more than once'))
+    except Exception as e:
+        out.append((fid, C_RED_SOUND(keys), f'{where}: raised {_exc(e)}'))
+    return out
+
+
+def _key_str(key):
+    name, *args = key
+    return f'{name}({", ".join(map(str, args))})'
+
+
+# ---- iivsearch ----
+
+C_BLOCK = 'td_exhaustive_block_structure builds one candidate per partition of the (non-fixed) etas except the structure of the start model, each once'
+C_NOETAS = 'td_exhaustive_no_of_etas builds one candidate per non-empty subset of the removable etas, each once'
+C_IIV_NAMES = 'iivsearch candidate names are unique and numbered from index_offset + 1'
+
+_IIV_MODELS = {}
+
+
+def _iiv_model(n_etas, structure, fixed=()):
+    """pheno with one peripheral compartment and IIV on CL, VC, QP1 (, VP1), its etas arranged in
+    the given block structure (tuple of tuples of eta indices)"""
+    from pharmpy.modeling import (
+        add_peripheral_compartment,
+        add_pk_iiv,
+        create_joint_distribution,
+        fix_parameters,
+        load_example_model,
+        remove_iiv,
+    )
+
+    k = (n_etas, structure, tuple(fixed))
+    if k in _IIV_MODELS:
+        return _IIV_MODELS[k]
+    if 'base' not in _IIV_MODELS:
+        m = load_example_model('pheno')
+        m = add_pk_iiv(add_peripheral_compartment(m))
+        _IIV_MODELS['base'] = m
+    m = _IIV_MODELS['base']
+    names = list(m.random_variables.iiv.names)
+    assert len(names) == 4
+    if n_etas == 3:
+        m = remove_iiv(m, [names[3]])
+        names = names[:3]
+    for part in structure:
+        if len(part) > 1:
+            m = create_joint_distribution(m, [names[i] for i in part], individual_estimates=None)
+    if fixed:
+        omegas = []
+        for i in fixed:
+            dist = m.random_variables.iiv[names[i]]
+            omegas.append(str(dist.get_variance(names[i])))
+        m = fix_parameters(m, omegas)
+    # the structure really is the requested one
+    have = frozenset(frozenset(d.names) for d in m.random_variables.iiv)
+    assert have == frozenset(frozenset(names[i] for i in part) for part in structure), (have, structure)
+    _IIV_MODELS[k] = (m, names)
+    return _IIV_MODELS[k]
+
+
+def _check_iiv(case):
+    from collections import Counter
+
+    from pharmpy.tools.iivsearch import algorithms as I
+
+    n = case['n_etas']
+    structure = tuple(tuple(p) for p in case['structure'])
+    fixed = tuple(case.get('fixed', ()))
+    offset = case.get('index_offset', 0)
+    keep = case.get('keep')
+    m, names = _iiv_model(n, structure, fixed)
+    free = [x for i, x in enumerate(names) if i not in fixed]
+    out = []
+    where = (f'pheno+1 peripheral, etas {names}, blocks {[[names[i] for i in p] for p in structure]}'
+             + (f', fixed {[names[i] for i in fixed]}' if fixed else ''))
+
+    def numbered(cnames, fid):
+        want = [f'iivsearch_run{i + offset}' for i in range(1, len(cnames) + 1)]
+        if len(set(cnames)) != len(cnames) or sorted(cnames) != sorted(want):
+            out.append((fid, C_IIV_NAMES, f'{where}, index_offset={offset}: names {cnames[:4]}..'))
+
+    fid = IIV_ALG + 'td_exhaustive_block_structure'
+    try:
+        wf = I.td_exhaustive_block_structure(m, index_offset=offset)
+        cands = [t for t in wf.tasks if t.function is I.create_block_structure_candidate_entry]
+        got = Counter(frozenset(frozenset(p) for p in t.task_input[1]) for t in cands)
+        current = frozenset(frozenset(names[i] for i in part if i not in fixed) for part in structure)
+        current = frozenset(p for p in current if p)
+        want = Counter(p for p in _ref_partitions(free) if p != current)
+        bad = None
+        if got != want:
+            bad = (f'{len(cands)} candidates ({len(got)} distinct), expected {sum(want.values())} = '
+                   f'Bell({len(free)}) - 1')
+        elif any(sorted(e for p in t.task_input[1] for e in p) != sorted(free) for t in cands):
+            bad = 'a candidate structure is not a partition of the etas'
+        elif len(wf.tasks) != 2 * len(cands) or any(len(wf.get_successors(t)) != 1 for t in cands):
+            bad = f'{len(wf.tasks)} tasks for {len(cands)} candidates'
+        if bad:
+            out.append((fid, C_BLOCK, f'{where}: {bad}'))
+        numbered([t.task_input[0] for t in cands], fid)
+    except Exception as e:
+        out.append((fid, C_BLOCK, f'{where}: raised {_exc(e)}'))
+
+    fid = IIV_ALG + 'td_exhaustive_no_of_etas'
+    try:
+        wf = I.td_exhaustive_no_of_etas(m, index_offset=offset, keep=keep)
+        cands = [t for t in wf.tasks if t.function is I.create_no_of_etas_candidate_entry]
+        got = Counter(frozenset(t.task_input[1]) for t in cands)
+        kept = {'CL': names[0]}
+        removable = [x for x in free if not keep or x not in [kept.get(k, k) for k in keep]]
+        want = Counter(frozenset(s) for s in _ref_subsets_by_mask(removable) if s)
+        bad = None
+        if got != want:
+            bad = (f'keep={keep}: {len(cands)} candidates ({len(got)} distinct), expected '
+                   f'{sum(want.values())} = 2^{len(removable)} - 1')
+        elif len(wf.tasks) != 2 * len(cands) or any(len(wf.get_successors(t)) != 1 for t in cands):
+            bad = f'{len(wf.tasks)} tasks for {len(cands)} candidates'
+        if bad:
+            out.append((fid, C_NOETAS, f'{where}: {bad}'))
+        numbered([t.task_input[0] for t in cands], fid)
+    except Exception as e:
+        out.append((fid, C_NOETAS, f'{where}: raised {_exc(e)}'))
+    return out
+
+
+# ---- enumeration ----
+
+def _enum_cases(tier):
+    quick = tier == 'quick'
+    # partitions: range(n) and every order of <=4 distinct labels
+    for n in range(0, (6 if quick else 7) + 1):
+        yield {'kind': 'partitions', 'elements': list(range(n))}
+    for n in range(1, 5):
+        for perm in itertools.permutations('abcd'[:n]):
+            yield {'kind': 'partitions', 'elements': list(perm)}
+    for n in range(0, (6 if quick else 7) + 1):
+        yield {'kind': 'subsets', 'n': n}
+    # _is_allowed: every (candidate, previous sequence)
+    maxprev = 2 if quick else 3
+    for space in [EXAMPLE_SPACE] + NAMED_SPACES[1:4]:
+        keys = list(_space_funcs(space))
+        if space != EXAMPLE_SPACE:
+            maxp = maxprev + 1
+        else:
+            maxp = maxprev
+        for feat in keys:
+            for r in range(0, maxp + 1):
+                for prev in itertools.permutations(keys, r):
+                    yield {'kind': 'allowed', 'space': space, 'keys': None, 'feat': list(feat),
+                           'previous': [list(p) for p in prev]}
+    # builders: all sub-dictionaries of the universe with <= k features, and the named spaces
+    ukeys = list(_space_funcs(UNIVERSE_SPACE))
+    for r in range(1, (3 if quick else 4) + 1):
+        for sub in itertools.combinations(ukeys, r):
+            yield {'kind': 'builders', 'space': UNIVERSE_SPACE, 'keys': [list(k) for k in sub]}
+    for space in NAMED_SPACES:
+        yield {'kind': 'builders', 'space': space, 'drop_defaults': True, 'keys': None}
+    yield {'kind': 'builders', 'space': NAMED_SPACES[1], 'keys': None}
+    if not quick:
+        yield {'kind': 'builders', 'space': EXAMPLE_SPACE, 'drop_defaults': True, 'keys': None,
+               'skip_stepwise': True}
+    # iivsearch: every block structure of 3 and of 4 etas as start model
+    for n in (3, 4):
+        for p in _ref_partitions(range(n)):
+            structure = sorted(sorted(part) for part in p)
+            yield {'kind': 'iiv', 'n_etas': n, 'structure': structure}
+    yield {'kind': 'iiv', 'n_etas': 4, 'structure': [[0], [1], [2], [3]], 'index_offset': 7,
+           'keep': ['CL']}
+    yield {'kind': 'iiv', 'n_etas': 4, 'structure': [[0, 1], [2], [3]], 'fixed': [3]}
+    yield {'kind': 'iiv', 'n_etas': 4, 'structure': [[0], [1], [2], [3]], 'fixed': [2]}
+
+
+def _enum_check(case):
+    k = case['kind']
+    if k == 'partitions':
+        return _check_partitions(case['elements'])
+    if k == 'subsets':
+        return _check_subsets(case['n'])
+    if k == 'allowed':
+        return _check_is_allowed(case)
+    if k == 'builders':
+        return _check_builders(case)
+    if k == 'iiv':
+        return _check_iiv(case)
+    raise ValueError(k)
+
+
+def _case_size(case):
+    import json
+
+    return (len(case.get('keys') or case.get('previous') or case.get('elements')
+                or case.get('structure') or []), len(json.dumps(case)))
+
+
+def _enum_worker(items):
+    best = {}
+    n = 0
+    for case in items:
+        n += 1
+        for fid, clause, detail in _enum_check(case):
+            k = (fid, clause)
+            size = _case_size(case)
+            if k not in best or (size, detail) < (best[k][0], best[k][1]):
+                best[k] = (size, detail, case)
+    return n, n, best
+
+
+def bounded_enumeration(tier):
+    _mfl()
+    light, heavy = [], []
+    for c in _enum_cases(tier):
+        (heavy if c['kind'] in ('builders', 'iiv') else light).append(c)
+    jobs = list(_chunks(light, 2000)) + list(_chunks([c for c in heavy if c['kind'] == 'builders'], 40))
+    iiv = [c for c in heavy if c['kind'] == 'iiv']
+    jobs += list(_chunks(iiv, 4))
+    cases, nontrivial, fails = _merge_fails(_run_jobs(_enum_worker, jobs), 'bounded_enumeration_replay')
+    quick = tier == 'quick'
+    bound = (f'partitions of range(n), n<={6 if quick else 7}, and of every ordering of <=4 labels; '
+             f'subsets for n<={6 if quick else 7} with every (min_size, max_size); _is_allowed for every '
+             f'(feature, sequence of <={2 if quick else 3} distinct previous features) over the funcs of '
+             f'{EXAMPLE_SPACE!r} (and of 3 spaces with NODEPOT / unsorted counts, one step longer); '
+             f'all_combinations, exhaustive, exhaustive_stepwise, reduced_stepwise for every '
+             f'sub-dictionary with <={3 if quick else 4} features of the 18 funcs of {UNIVERSE_SPACE!r} '
+             f'and {len(NAMED_SPACES) + 1} named spaces; iivsearch builders for pheno + 1 peripheral with '
+             f'3 and 4 etas in every block structure (20 start models), plus keep / fixed / index_offset')
+    return {
+        'cases': cases,
+        'nontrivial': nontrivial,
+        'bound': bound,
+        'samples': ["partitions(('b', 'a', 'c'))",
+                    "_is_allowed(('PERIPHERALS', 2), previous=[('PERIPHERALS', 0), ('ABSORPTION', 'ZO')])",
+                    "builders over [('ABSORPTION', 'ZO'), ('PERIPHERALS', 1), ('PERIPHERALS', 2)]"],
+        'fails': fails,
+    }
+
+
+def bounded_enumeration_replay(rp):
+    case = rp['case']
+    _mfl()
+    for fid, clause, detail in _enum_check(case):
+        if fid == case['fid'] and clause == case['clause']:
+            return (False, detail)
+    return (True, 'ok')
